@@ -1,143 +1,187 @@
 /-
   Mb2.Sweep — the model side of the SWEEP family: load a region, call every getter / accessor / iterator of the
-  boot-information model and render the observations in the same canonical text as the Rust harness (harness/src/sweep.rs).
+  boot-information model and produce the observations in the same canonical text as the Rust harness
+  (harness/src/sweep.rs).
+
+  The sweep is a list of `Piece`s: literal text, or one of the two FAULT markers `oob` / `ub`. The rendered text
+  (`Obs.render`) is what the correspondence check compares with the real code; the theorems of `Props/C01.lean`
+  (`sweep_no_fault`) are about this very function: for every memory content no `oob` / `ub` piece is ever produced.
+  Every variable-length part handed to the caller (strings, SMBIOS tables, palette) is obtained by a CHECKED slice on the
+  tag's bytes up to its DECLARED size (`declared`), every fixed field by a checked read on the typed view's extent.
 -/
 import Mb2.Tags
-namespace Mb2.Sweep
-open Mb2
+namespace Mb2
+
+/-- one piece of an observation line -/
+inductive Piece where
+  | txt (s : String) | oob | ub
+deriving Repr, DecidableEq, Inhabited
+
+def Piece.render : Piece → String
+  | .txt s => s | .oob => "OOB" | .ub => "UB"
+
+abbrev Obs := List Piece
+def Obs.render (o : Obs) : String := String.join (o.map Piece.render)
+/-- no memory-safety fault and no undefined enum value anywhere in the observation -/
+def Obs.NoFault (o : Obs) : Prop := ∀ x ∈ o, x ≠ .oob ∧ x ≠ .ub
+def Obs.NoOob (o : Obs) : Prop := ∀ x ∈ o, x ≠ .oob
+
+namespace Sweep
+
+def t (s : String) : Obs := [.txt s]
 
 def hexDigit (n : Nat) : Char := if n < 10 then Char.ofNat (48 + n) else Char.ofNat (87 + n)
 def hex64 (v : UInt64) : String :=
   String.ofList ((List.range 16).map fun i => hexDigit ((v >>> (UInt64.ofNat (60 - 4*i))) &&& 15).toNat)
 
-def resS {α} (f : α → String) : Res α → String
-  | .ok a => f a | .panic => "P" | .oob => "OOB" | .ub => "UB"
+def resO {α} (f : α → Obs) : Res α → Obs
+  | .ok a => f a | .panic => t "P" | .oob => [.oob] | .ub => [.ub]
+
+def resS {α} (f : α → String) (r : Res α) : Obs := resO (fun a => t (f a)) r
 
 /-- `name=value,` -/
-def fld (name : String) (r : Res Nat) : String := s!"{name}={resS toString r},"
+def fld (name : String) (r : Res Nat) : Obs := t s!"{name}=" ++ resS toString r ++ t ","
 
-def fields (T : Bytes) (fs : List (String × Nat × Nat)) : String :=
-  String.join (fs.map fun (n, o, w) => fld n (rdW T o w))
+def fields (T : Bytes) (fs : List (String × Nat × Nat)) : Obs :=
+  (fs.map fun (n, o, w) => fld n (rdW T o w)).flatten
 
 /-- region offset of a tag-relative offset -/
 def roff (v : View) (o : Nat) : Nat := 8 + v.off + o
 
-def strS (T : Bytes) (v : View) (fixed n : Nat) : String :=
-  let bytes := slice T fixed n
-  match parseStr bytes with
-  | .ok len => s!"s({roff v fixed}:{len}:{hex64 (fnv (bytes.take len))})"
-  | .error .missingNul => "e:MissingNul"
-  | .error .utf8 => "e:Utf8"
+/-- the bytes of a tag up to its DECLARED size: the extent from which variable-length parts are handed out -/
+def declared (T : Bytes) (v : View) : Bytes := T.take v.size
 
-def utf8S (T : Bytes) (v : View) (o n : Nat) : String :=
-  let bytes := slice T o n
-  if validUtf8 bytes then s!"s({roff v o}:{n}:{hex64 (fnv bytes)})" else "e:Utf8"
+def strS (T : Bytes) (v : View) (fixed n : Nat) : Obs :=
+  resS (fun bytes =>
+    match parseStr bytes with
+    | .ok len => s!"s({roff v fixed}:{len}:{hex64 (fnv (bytes.take len))})"
+    | .error .missingNul => "e:MissingNul"
+    | .error .utf8 => "e:Utf8") (rdSlice (declared T v) fixed n)
+
+def utf8S (T : Bytes) (v : View) (o n : Nat) : Obs :=
+  resS (fun bytes => if validUtf8 bytes then s!"s({roff v o}:{n}:{hex64 (fnv bytes)})" else "e:Utf8") (rdSlice T o n)
 
 /-- getter wrapper -/
-def getter (name : String) (g : Res (Option View)) (body : View → String) : String :=
-  name ++ "=" ++
+def getter (name : String) (g : Res (Option View)) (body : View → Obs) : Obs :=
+  t (name ++ "=") ++
   (match g with
-   | .ok none => "-"
-   | .ok (some v) => s!"@{8 + v.off}:{v.sov}" ++ "{" ++ body v ++ "}"
-   | .panic => "P" | .oob => "OOB" | .ub => "UB") ++ ";"
+   | .ok none => t "-"
+   | .ok (some v) => t (s!"@{8 + v.off}:{v.sov}" ++ "{") ++ body v ++ t "}"
+   | .panic => t "P" | .oob => [.oob] | .ub => [.ub]) ++ t ";"
 
-def endS : End → String
-  | .done => "]." | .bad => "]!" | .oob => "]OOB" | .ub => "]UB"
+def endS : End → Obs
+  | .done => t "]." | .bad => t "]!" | .oob => t "]" ++ [.oob] | .ub => t "]" ++ [.ub]
 
-def efiS (T : Bytes) (v : View) : String :=
-  "areas=" ++
-  (match efiEntries T v with
-   | .ok (ds, cnt) =>
-     s!"[len={cnt}|" ++
-     String.join ((List.range cnt).map fun i =>
-       match efiDesc T ds i with
-       | .ok d => "{" ++ s!"@{roff v d.off},ty={d.ty},phys={d.phys},virt={d.virt},pages={d.pages},att={d.att},rem={cnt - i - 1}" ++ "}"
-       | .panic => "P" | .oob => "OOB" | .ub => "UB") ++ "].rem=0"
-   | .panic => "P" | .oob => "OOB" | .ub => "UB") ++ ","
+def efiS (T : Bytes) (v : View) : Obs :=
+  t "areas=" ++
+  resO (fun (ds, cnt) =>
+     t s!"[len={cnt}|" ++
+     ((List.range cnt).map fun i =>
+       resS (fun d => "{" ++ s!"@{roff v d.off},ty={d.ty},phys={d.phys},virt={d.virt},pages={d.pages},att={d.att},rem={cnt - i - 1}" ++ "}")
+         (efiDesc T ds i)).flatten ++ t "].rem=0") (efiEntries T v) ++ t ","
 
 def boolS (b : Bool) : String := if b then "true" else "false"
 
 def elfSecS (s : ElfSec) : String :=
   "{" ++ s!"type={s.typ.discr},raw={s.raw},flags={s.flags},start={s.start},end={s.end},size={s.size},align={s.align},alloc={boolS (s.flags / 2 % 2 == 1)},rem={s.rem}" ++ "}"
 
-def elfS (T : Bytes) (v : View) : String :=
-  fields T (Kind.fields .elf) ++ "sections=" ++
-  (match elfOpen T v with
-   | .ok (num, es) => let r := elfIter T es num 20; "[" ++ String.join (r.1.map elfSecS) ++ endS r.2
-   | .panic => "P" | .oob => "OOB" | .ub => "UB") ++ ","
+def elfS (T : Bytes) (v : View) : Obs :=
+  fields T (Kind.fields .elf) ++ t "sections=" ++
+  resO (fun (num, es) => let r := elfIter T es num 20; t ("[" ++ String.join (r.1.map elfSecS)) ++ endS r.2) (elfOpen T v) ++ t ","
 
-def fbTypeS (T : Bytes) (v : View) : Res (Ex Nat FbType) → String
-  | .ok (.error b) => s!"unknown:{b}"
-  | .ok (.ok (.indexed po num)) => s!"indexed({roff v po}:{num}:{hex64 (fnv ((slice T po (num * 3)).take 4096))})"
-  | .ok (.ok (.rgb a b c d e f)) => s!"rgb({a}:{b}:{c}:{d}:{e}:{f})"
-  | .ok (.ok .text) => "text"
-  | .panic => "P" | .oob => "OOB" | .ub => "UB"
+def fbTypeS (T : Bytes) (v : View) : Res (Ex Nat FbType) → Obs
+  | .ok (.error b) => t s!"unknown:{b}"
+  | .ok (.ok (.indexed po num)) =>
+    resS (fun pal => s!"indexed({roff v po}:{num}:{hex64 (fnv (pal.take 4096))})") (rdSlice (declared T v) po (num * 3))
+  | .ok (.ok (.rgb a b c d e f)) => t s!"rgb({a}:{b}:{c}:{d}:{e}:{f})"
+  | .ok (.ok .text) => t "text"
+  | .panic => t "P" | .oob => [.oob] | .ub => [.ub]
 
-def fbS (T : Bytes) (v : View) : String :=
+def fbS (T : Bytes) (v : View) : Obs :=
   fields T (Kind.fields .fb) ++
-  "type=" ++ fbTypeS T v (fbBufferType T v) ++ ","
+  t "type=" ++ fbTypeS T v (fbBufferType T v) ++ t ","
 
-def mmapS (T : Bytes) (v : View) : String :=
-  fields T (Kind.fields .mmap) ++ "areas=" ++
-  (match memoryAreas T v with
-   | .ok as => s!"[{roff v 16}:{as.length}|" ++
-       String.join (as.map fun a => "{" ++ s!"start={a.start},end={a.end},size={a.size},typ={a.typ}," ++ "}") ++ "]"
-   | .panic => "P" | .oob => "OOB" | .ub => "UB") ++ ","
+def mmapS (T : Bytes) (v : View) : Obs :=
+  fields T (Kind.fields .mmap) ++ t "areas=" ++
+  resS (fun as => s!"[{roff v 16}:{as.length}|" ++
+       String.join (as.map fun a => "{" ++ s!"start={a.start},end={a.end},size={a.size},typ={a.typ}," ++ "}") ++ "]")
+    (memoryAreas T v) ++ t ","
 
-def colonJoin (l : List (Res Nat)) : String := ":".intercalate (l.map (resS toString))
+def colonJoin (l : List (Res Nat)) : Obs :=
+  match l with
+  | [] => []
+  | r :: rest => resS toString r ++ (rest.map fun x => t ":" ++ resS toString x).flatten
 
-def vbeS (T : Bytes) : String :=
+def vbeS (T : Bytes) : Obs :=
   fields T (Kind.fields .vbe) ++
-  "ci=" ++ colonJoin (vbeControlFields.map fun (o, w) => rdW T o w) ++ "," ++
-  "mi=" ++ colonJoin (vbeModeFields.map (fun (o, w) => rdW T o w) ++ [.ok 0, .ok 0]) ++ ","
+  t "ci=" ++ colonJoin (vbeControlFields.map fun (o, w) => rdW T o w) ++ t "," ++
+  t "mi=" ++ colonJoin (vbeModeFields.map (fun (o, w) => rdW T o w) ++ [.ok 0, .ok 0]) ++ t ","
 
 def isOkSome {α} : Res (Option α) → Bool
   | .ok (some _) => true | _ => false
 def isPanic {α} : Res α → Bool
   | .panic => true | _ => false
 
+def walkEndS : End → Obs
+  | .done => t "|done" | .bad => t "|panic" | .oob => t "|" ++ [.oob] | .ub => t "|" ++ [.ub]
+
+/-- `tags()` drained -/
+def tagsS (w : List Item × End) : Obs :=
+  t ("tags=" ++ String.join (w.1.map fun it => s!"{8 + it.off}:{it.typ}:{it.size}:{it.pl},")) ++ walkEndS w.2 ++ t ";"
+
+def rsdpS (T : Bytes) (v : View) (valid : Res Bool) (k : Kind) : Obs :=
+  t "signature=" ++ utf8S T v 8 8 ++ t ",valid=" ++ resS boolS valid ++ t ",oem_id=" ++ utf8S T v 17 6 ++ t "," ++
+  fields T k.fields
+
+def smbiosS (T : Bytes) (v : View) : Obs :=
+  fields T (Kind.fields .smbios) ++ t "tables=" ++
+  resS (fun tb => s!"b({roff v 16}:{v.n}:{hex64 (fnv tb)})") (rdSlice (declared T v) 16 v.n) ++ t ","
+
+def moduleS (T : Bytes) (v : View) : Obs :=
+  t (s!"@{8 + v.off}:{v.sov}" ++ "{") ++ fields T (Kind.fields .module) ++
+    fld "size" (do let a ← rd32 T 8; let b ← rd32 T 12; pure (b - a)) ++
+    t "cmdline=" ++ strS T v 16 v.n ++ t "," ++ t "}"
+
+/-- deprecated `elf_sections()`: asserts, then the section count -/
+def elfSectionsS (T : Bytes) (v : View) : Obs :=
+  resS toString (do
+    let es ← rd32 T 12
+    let sh ← rd32 T 16
+    if es * sh > v.size then .panic else
+    let r ← elfOpen T v
+    pure r.1)
+
+def fbGetterS (area : Bytes) (fbG : Res (Option View)) : Obs :=
+  t "fb=" ++
+  (match fbG with
+   | .ok none => t "-"
+   | .ok (some v) =>
+     (match fbBufferType (v.bytes area) v with
+      | .panic => t "P" | .oob => [.oob] | .ub => [.ub]
+      | .ok (.error b) => t s!"unknown:{b}"
+      | .ok (.ok _) => t (s!"@{8 + v.off}:{v.sov}" ++ "{") ++ fbS (v.bytes area) v ++ t "}")
+   | .panic => t "P" | .oob => [.oob] | .ub => [.ub]) ++ t ";"
+
 /-- the whole sweep of a loaded region `R` (declared size = `R.length`) -/
-def sweepLoaded (p : Profile) (R : Bytes) : String :=
+def sweepLoaded (p : Profile) (R : Bytes) : Obs :=
   let area := R.drop 8
   let w := tagsOf p .tag area
   let ext (v : View) : Bytes := v.bytes area
   let g (k : Kind) := getTag p area k
   let simple (name : String) (k : Kind) := getter name (g k) (fun v => fields (ext v) k.fields)
-  let tagsS := "tags=" ++ String.join (w.1.map fun it => s!"{8 + it.off}:{it.typ}:{it.size}:{it.pl},") ++
-    (match w.2 with | .done => "|done" | .bad => "|panic" | .oob => "|OOB" | .ub => "|UB") ++ ";"
   -- efi_memory_map_tag(): withheld while a boot-services-not-exited tag is present
   let efiG : Res (Option View) := efiMemoryMapTag p area
   -- framebuffer_tag(): get_tag + buffer_type()
   let fbG := g .fb
-  let fbStr := "fb=" ++
-    (match fbG with
-     | .ok none => "-"
-     | .ok (some v) =>
-       (match fbBufferType (ext v) v with
-        | .panic => "P" | .oob => "OOB" | .ub => "UB"
-        | .ok (.error b) => s!"unknown:{b}"
-        | .ok (.ok _) => s!"@{8 + v.off}:{v.sov}" ++ "{" ++ fbS (ext v) v ++ "}")
-     | .panic => "P" | .oob => "OOB" | .ub => "UB") ++ ";"
   let mods := moduleViews p area
-  let modS := "modules=[" ++ String.join (mods.1.map fun v =>
-      let T := ext v
-      s!"@{8 + v.off}:{v.sov}" ++ "{" ++ fields T (Kind.fields .module) ++
-        fld "size" (do let a ← rd32 T 8; let b ← rd32 T 12; pure (b - a)) ++
-        s!"cmdline={strS T v 16 v.n}," ++ "}") ++ endS mods.2 ++ ";"
+  let modS := t "modules=[" ++ (mods.1.map fun v => moduleS (ext v) v).flatten ++ endS mods.2 ++ t ";"
   -- deprecated elf_sections()
   let elfG := g .elf
-  let elfSecs := "elf_sections=" ++
+  let elfSecs := t "elf_sections=" ++
     (match elfG with
-     | .ok none => "-"
-     | .ok (some v) =>
-       let T := ext v
-       resS toString (do
-         let es ← rd32 T 12
-         let sh ← rd32 T 16
-         if es * sh > v.size then .panic else
-         let r ← elfOpen T v
-         pure r.1)
-     | .panic => "P" | .oob => "OOB" | .ub => "UB") ++ ";"
+     | .ok none => t "-"
+     | .ok (some v) => elfSectionsS (ext v) v
+     | .panic => t "P" | .oob => [.oob] | .ub => [.ub]) ++ t ";"
   -- Debug: panics iff the walk is bad, a getter panics, or one of the Debug impls that call checked accessors panics
   let getters := [g .apm, g .meminfo, g .loader, g .bootdev, g .cmdline, g .efiBs, g .efiIh32, g .efiIh64, efiG,
                   g .efiSdt32, g .efiSdt64, elfG, fbG, g .loadBase, g .mmap, g .network, g .rsdp1, g .rsdp2, g .smbios, g .vbe]
@@ -154,40 +198,38 @@ def sweepLoaded (p : Profile) (R : Bytes) : String :=
     | .ok (some v) => isPanic (fbBufferType (ext v) v)
     | _ => false
   let dbgPanics := w.2 != .done || getters.any isPanic || efiDbgPanics || elfDbgPanics || fbDbgPanics || mods.2 != .done
-  tagsS ++
+  tagsS w ++
   simple "apm" .apm ++ simple "meminfo" .meminfo ++
-  getter "loader" (g .loader) (fun v => fields (ext v) (Kind.fields .loader) ++ s!"name={strS (ext v) v 8 v.n},") ++
+  getter "loader" (g .loader) (fun v => fields (ext v) (Kind.fields .loader) ++ t "name=" ++ strS (ext v) v 8 v.n ++ t ",") ++
   simple "bootdev" .bootdev ++
-  getter "cmdline" (g .cmdline) (fun v => s!"cmdline={strS (ext v) v 8 v.n},") ++
+  getter "cmdline" (g .cmdline) (fun v => t "cmdline=" ++ strS (ext v) v 8 v.n ++ t ",") ++
   simple "efi_bs" .efiBs ++ simple "efi_ih32" .efiIh32 ++ simple "efi_ih64" .efiIh64 ++
   getter "efi_mmap" efiG (fun v => efiS (ext v) v) ++
   simple "efi_sdt32" .efiSdt32 ++ simple "efi_sdt64" .efiSdt64 ++
   getter "elf" elfG (fun v => elfS (ext v) v) ++
-  fbStr ++
+  fbGetterS area fbG ++
   simple "load_base" .loadBase ++
   getter "mmap" (g .mmap) (fun v => mmapS (ext v) v) ++
   modS ++
   simple "network" .network ++
-  getter "rsdp1" (g .rsdp1) (fun v => let T := ext v
-    s!"signature={utf8S T v 8 8},valid={resS boolS (rsdp1Valid T)},oem_id={utf8S T v 17 6}," ++ fields T (Kind.fields .rsdp1)) ++
-  getter "rsdp2" (g .rsdp2) (fun v => let T := ext v
-    s!"signature={utf8S T v 8 8},valid={resS boolS (rsdp2Valid T)},oem_id={utf8S T v 17 6}," ++ fields T (Kind.fields .rsdp2)) ++
-  getter "smbios" (g .smbios) (fun v => let T := ext v
-    fields T (Kind.fields .smbios) ++ s!"tables=b({roff v 16}:{v.n}:{hex64 (fnv (slice T 16 v.n))}),") ++
+  getter "rsdp1" (g .rsdp1) (fun v => rsdpS (ext v) v (rsdp1Valid (ext v)) .rsdp1) ++
+  getter "rsdp2" (g .rsdp2) (fun v => rsdpS (ext v) v (rsdp2Valid (ext v)) .rsdp2) ++
+  getter "smbios" (g .smbios) (fun v => smbiosS (ext v) v) ++
   getter "vbe" (g .vbe) (fun v => vbeS (ext v)) ++
   elfSecs ++
-  "debug=" ++ (if dbgPanics then "P" else "ok") ++ ";"
+  t ("debug=" ++ (if dbgPanics then "P" else "ok") ++ ";")
 
 def memErrStr : MemErr → String
   | .null => "Null" | .wrongAlignment => "WrongAlignment" | .shorterThanHeader => "ShorterThanHeader"
   | .missingPadding => "MissingPadding" | .invalidReportedTotalSize => "InvalidReportedTotalSize"
 
 /-- SWEEP on the memory behind the pointer -/
-def sweep (p : Profile) (mem : Bytes) : String :=
+def sweep (p : Profile) (mem : Bytes) : Obs :=
   match load p false mem with
-  | .ok (.ok l) => s!"ld=ok({l.start}:{l.end}:{l.total});" ++ sweepLoaded p (mem.take l.total)
-  | .ok (.error (.memory e)) => s!"ld=err:{memErrStr e};"
-  | .ok (.error .noEndTag) => "ld=err:NoEndTag;"
-  | .panic => "ld=panic;" | .oob => "ld=OOB;" | .ub => "ld=UB;"
+  | .ok (.ok l) => t s!"ld=ok({l.start}:{l.end}:{l.total});" ++ sweepLoaded p (mem.take l.total)
+  | .ok (.error (.memory e)) => t s!"ld=err:{memErrStr e};"
+  | .ok (.error .noEndTag) => t "ld=err:NoEndTag;"
+  | .panic => t "ld=panic;" | .oob => t "ld=" ++ [.oob] ++ t ";" | .ub => t "ld=" ++ [.ub] ++ t ";"
 
-end Mb2.Sweep
+end Sweep
+end Mb2
